@@ -14,25 +14,89 @@ def gen_atomic_op(rng, nobj):
     return "a%d.%s.%d" % (a, k, v)
 
 
+ALL = ("spawn", "join", "yield", "park", "atomic", "rand", "reset", "panic", "sem", "mutex", "rwlock")
+
+
 def gen_program(rng, max_bodies=4, max_ops=6, wild=False, features=("spawn", "join", "yield", "park", "atomic", "rand", "reset", "panic")):
     """Returns (objs, bodies) strings.  Body i spawns only bodies j > i (so the spawn graph is acyclic)."""
     nb = rng.randint(1, max_bodies)
     nobj = rng.randint(1, 3)
-    objs = ",".join("a%d" % rng.choice([0, 0, 1, 5, 2**64 - 1]) for _ in range(nobj))
+    objl = ["a%d" % rng.choice([0, 0, 1, 5, 2**64 - 1]) for _ in range(nobj)]
+    sems, mutexes, rwlocks = [], [], []
+    if "sem" in features:
+        for _ in range(rng.randint(1, 2)):
+            sems.append(len(objl))
+            objl.append("s%d:%s" % (rng.choice([0, 1, 1, 2, 3]), rng.choice("fu")))
+    if wild:
+        features = tuple(f for f in features if f not in ("mutex", "rwlock"))
+    if "mutex" in features:
+        for _ in range(rng.randint(1, 2)):
+            mutexes.append(len(objl))
+            objl.append("m")
+    if "rwlock" in features:
+        for _ in range(rng.randint(1, 2)):
+            rwlocks.append(len(objl))
+            objl.append("w")
+    objs = ",".join(objl)
+    sync_w = 0.45 if (sems or mutexes or rwlocks) else 0.0
     bodies = []
     for b in range(nb):
         ops = []
         handles = 0
         joined = set()
+        held = []          # guards certainly held (taken by a blocking lock)
+        maybe = []         # objects on which a try-lock was attempted (a guard may be held)
         n = rng.randint(0, max_ops)
         for _ in range(n):
             r = rng.random()
+            if rng.random() < sync_w:
+                kind = rng.choice((["sem"] if sems else []) + (["mutex"] * 2 if mutexes else []) + (["rwlock"] * 2 if rwlocks else []))
+                if kind == "sem":
+                    o = rng.choice(sems)
+                    k = rng.choice(["sa", "sa", "st", "sr", "sr", "sv", "sc"] if not wild else ["sa", "st", "sr", "sv", "sc", "sc"])
+                    if k in ("sa", "st", "sr"):
+                        ops.append("%s%d.%d" % (k, o, rng.choice([1, 1, 1, 2, 3] + ([0] if wild else []))))
+                    else:
+                        if k == "sc" and rng.random() < 0.6 and not wild:
+                            k = "sv"
+                        ops.append("%s%d" % (k, o))
+                elif kind == "mutex":
+                    o = rng.choice(mutexes)
+                    mine = [g for g in held if g == o]
+                    if mine and rng.random() < 0.6:
+                        ops.append("ul%d" % o)
+                        held.remove(o)
+                    elif rng.random() < 0.3:
+                        ops.append("tl%d" % o)
+                        maybe.append(o)
+                    elif not mine and o not in maybe:
+                        ops.append("lk%d" % o)
+                        held.append(o)
+                    else:
+                        ops.append("yd")
+                else:
+                    o = rng.choice(rwlocks)
+                    mine = [g for g in held if g == o]
+                    if mine and rng.random() < 0.6:
+                        ops.append("ru%d" % o)
+                        held.remove(o)
+                    elif rng.random() < 0.35:
+                        ops.append("%s%d" % (rng.choice(["tr", "tw"]), o))
+                        maybe.append(o)
+                    elif not mine and o not in maybe:
+                        ops.append("%s%d" % (rng.choice(["rd", "rd", "wr"]), o))
+                        held.append(o)
+                    else:
+                        ops.append("yd")
+                continue
             if "spawn" in features and b + 1 < nb and r < 0.22:
                 ops.append("sp%d" % rng.randint(b + 1, nb - 1))
                 handles += 1
             elif "join" in features and r < 0.40 and (handles > len(joined) or wild):
-                if (wild and rng.random() < 0.3) or handles <= len(joined):
+                if wild and (rng.random() < 0.3 or handles <= len(joined)):
                     ops.append("jn%d" % rng.randrange(0, 3))
+                elif handles <= len(joined):
+                    ops.append("yd")
                 else:
                     h = rng.choice([x for x in range(handles) if x not in joined])
                     joined.add(h)
@@ -45,12 +109,12 @@ def gen_program(rng, max_bodies=4, max_ops=6, wild=False, features=("spawn", "jo
                 if handles and rng.random() < 0.5:
                     ops.append("uh%d" % rng.randrange(handles))
                 else:
-                    ops.append("ut%d" % rng.randrange(0, nb if not wild else nb + 2))
+                    ops.append("ut%d" % (rng.randrange(0, nb + 2) if wild else 0))
             elif "rand" in features and r < 0.74:
                 ops.append("rn")
             elif "reset" in features and r < 0.77:
                 ops.append("rs")
-            elif "panic" in features and r < 0.78 + (0.02 if wild else 0):
+            elif "panic" in features and r < 0.78 + (0.02 if wild else 0) and not maybe:
                 ops.append("pn")
             elif "atomic" in features:
                 ops.append(gen_atomic_op(rng, nobj))
